@@ -68,6 +68,22 @@ structure IsPartition (sols : List (Term × Term)) (gs : List (List (Term × Ter
   /-- solutions in different groups do not -/
   different : gs.Pairwise fun g h => ∀ p ∈ g, ∀ q ∈ h, ¬ Variant p.1 q.1
 
+mutual
+  /-- the value of a term under a set of bindings `variable ↦ term` (what writing an answer shows):
+      bound variables are replaced, recursively, by the value of the term they are bound to -/
+  inductive Value (e : List (Nat × Term)) : Term → Term → Prop
+    | unbound {v : Nat} : e.lookup v = none → Value e (.var v) (.var v)
+    | bound {v : Nat} {t r : Term} : e.lookup v = some t → Value e t r → Value e (.var v) r
+    | app {f : String} {as rs : Args} : ValueArgs e as rs → Value e (.app f as) (.app f rs)
+    | atom {s : String} : Value e (.atom s) (.atom s)
+    | int {i : Int} : Value e (.int i) (.int i)
+    | flt {b : UInt64} : Value e (.flt b) (.flt b)
+    | str {n : Nat} : Value e (.str n) (.str n)
+  inductive ValueArgs (e : List (Nat × Term)) : Args → Args → Prop
+    | nil : ValueArgs e .nil .nil
+    | cons {t r : Term} {ts rs : Args} : Value e t r → ValueArgs e ts rs → ValueArgs e (.cons t ts) (.cons r rs)
+end
+
 /-- a total order given as a three-way comparison -/
 structure IsTotalOrder {α : Type} (cmp : α → α → Ordering) : Prop where
   eq_iff : ∀ a b, cmp a b = .eq ↔ a = b
